@@ -1,5 +1,10 @@
 (* C20_TzifModel: executable model of muduo's TZif reader, detail::readTimeZoneFile and
    detail::readDataBlock (muduo/base/TimeZone.cc:169-283), statement by statement.  No proofs.
+   The rejection tests on the six counts, the count that bounds each loop / reserve / readBytes, the
+   version-2 skip expression with its int multiplications, the magic and version literals, the
+   header field lengths, both skip constants and the v1 flags handed to readDataBlock are NOT
+   written here: they are Gen_C20Tz.readDataBlock_* / readTimeZoneFile_*, regenerated from the
+   C++ on every run (the generator also checks the order of the reads and loops).
 
    The file is a list of bytes with a read position ([cur]: position and the bytes from there
    on).  detail::File:
@@ -21,7 +26,7 @@
    used by the conversions of this property; they are not part of [tzdata]. *)
 From Coq Require Import List ZArith Bool Arith NArith.
 From Coq.Strings Require Import Byte.
-From Muduo Require Import Base_Bytes C20_Model.
+From Muduo Require Import Base_Bytes C20_Model Gen_C20Tz.
 Import ListNotations.
 Local Open Scope Z_scope.
 
@@ -104,29 +109,30 @@ Fixpoint addTransitions (offs : list Z) (ts : list Z) (is : list Z) : addres :=
 (* bool readDataBlock(File& f, Data* data, bool v1) *)
 Definition readDataBlock (c : cur) (v1 : bool) : tzres :=
   match readCounts c with
-  | Some ([isutccnt; isstdcnt; leapcnt; timecnt; typecnt; charcnt], c1) =>
-    if negb (leapcnt =? 0) then TzFail
-    else if negb (isutccnt =? 0) && negb (isutccnt =? typecnt) then TzFail
-    else if negb (isstdcnt =? 0) && negb (isstdcnt =? typecnt) then TzFail
-    else if timecnt <? 0 then TzFail                        (* trans.reserve(timecnt): std::length_error *)
+  | Some ([n0; n1; n2; n3; n4; n5], c1) =>
+    if readDataBlock_reject n0 n1 n2 n3 n4 n5 then TzFail
+    else if readDataBlock_reserve_times n0 n1 n2 n3 n4 n5 <? 0 then TzFail    (* trans.reserve: std::length_error *)
     else
-      match readMany (if v1 then readInt32 else readInt64) (Z.to_nat timecnt) c1 with
+      match readMany (if v1 then readInt32 else readInt64) (Z.to_nat (readDataBlock_ntimes n0 n1 n2 n3 n4 n5)) c1 with
       | None => TzFail
       | Some (ts, c2) =>
-        match readMany readUInt8 (Z.to_nat timecnt) c2 with
+        if readDataBlock_reserve_idx n0 n1 n2 n3 n4 n5 <? 0 then TzFail
+        else
+        match readMany readUInt8 (Z.to_nat (readDataBlock_nidx n0 n1 n2 n3 n4 n5)) c2 with
         | None => TzFail
         | Some (is, c3) =>
-          if typecnt <? 0 then TzFail                        (* localtimes.reserve(typecnt) *)
+          if readDataBlock_reserve_types n0 n1 n2 n3 n4 n5 <? 0 then TzFail    (* data->localtimes.reserve *)
           else
-            match readMany readType (Z.to_nat typecnt) c3 with
+            match readMany readType (Z.to_nat (readDataBlock_ntypes n0 n1 n2 n3 n4 n5)) c3 with
             | None => TzFail
             | Some (offs, c4) =>
-              match addTransitions offs ts is with
+              let na := Z.to_nat (readDataBlock_nadd n0 n1 n2 n3 n4 n5) in
+              match addTransitions offs (firstn na ts) (firstn na is) with
               | AddFail => TzFail
               | AddUndefined => TzUndefined
               | AddOk trs =>
-                if charcnt <=? 0 then TzUndefined            (* char buf[charcnt]: the bound must be positive *)
-                else match readBytes (Z.to_nat charcnt) c4 with
+                if readDataBlock_nchars n0 n1 n2 n3 n4 n5 <=? 0 then TzUndefined   (* char buf[n]: the bound must be positive *)
+                else match readBytes (Z.to_nat (readDataBlock_nchars n0 n1 n2 n3 n4 n5)) c4 with
                      | None => TzFail
                      | Some _ => TzOk (mkTz trs offs)
                      end
@@ -137,7 +143,9 @@ Definition readDataBlock (c : cur) (v1 : bool) : tzres :=
   | _ => TzFail
   end.
 
-Definition magic : list byte := [x54; x5a; x69; x66].   (* "TZif" *)
+Definition magic : list byte := [x54; x5a; x69; x66].   (* "TZif": the writer's side *)
+
+Definition chars (l : list Z) : list byte := map byte_of_Z l.
 
 Fixpoint bytes_eqb (a b : list byte) : bool :=
   match a, b with
@@ -146,36 +154,33 @@ Fixpoint bytes_eqb (a b : list byte) : bool :=
   | _, _ => false
   end.
 
-Definition fits_int (x : Z) : bool := (-2147483648 <=? x) && (x <=? 2147483647).
-
 (* bool readTimeZoneFile(const char* zonefile, Data* data) on the contents of the file *)
 Definition tzif_parse (file : list byte) : tzres :=
   let c0 := mkCur 0 file in
-  match readBytes 4 c0 with
+  match readBytes (Z.to_nat readTimeZoneFile_head_len) c0 with
   | None => TzFail
   | Some (head, c1) =>
-    if negb (bytes_eqb head magic) then TzFail
+    if negb (bytes_eqb head (chars readTimeZoneFile_magic)) then TzFail
     else
-      match readBytes 1 c1 with
+      match readBytes (Z.to_nat readTimeZoneFile_version_len) c1 with
       | None => TzFail
       | Some (version, c2) =>
-        match readBytes 15 c2 with
+        match readBytes (Z.to_nat readTimeZoneFile_reserved_len) c2 with
         | None => TzFail
         | Some (_, c3) =>
           match readCounts c3 with
-          | Some ([isgmtcnt; isstdcnt; leapcnt; timecnt; typecnt; charcnt], c4) =>
-            if bytes_eqb version [x32] then               (* version == "2" *)
-              if negb (fits_int (6 * typecnt) && fits_int (8 * leapcnt)) then TzUndefined
+          | Some ([n0; n1; n2; n3; n4; n5], c4) =>
+            if bytes_eqb version (chars readTimeZoneFile_v2) then
+              if negb (readTimeZoneFile_skip_fits n0 n1 n2 n3 n4 n5) then TzUndefined
               else
-                let sk := 4 * timecnt + timecnt + 6 * typecnt + charcnt + 8 * leapcnt + isstdcnt + isgmtcnt in
-                let c5 := skip file sk c4 in
-                match readBytes 4 c5 with
+                let c5 := skip file (readTimeZoneFile_skip n0 n1 n2 n3 n4 n5) c4 in
+                match readBytes (Z.to_nat readTimeZoneFile_head2_len) c5 with
                 | None => TzFail
                 | Some (head2, c6) =>
-                  if negb (bytes_eqb head2 magic) then TzFail
-                  else readDataBlock (skip file 16 c6) false
+                  if negb (bytes_eqb head2 (chars readTimeZoneFile_magic2)) then TzFail
+                  else readDataBlock (skip file readTimeZoneFile_skip2 c6) readTimeZoneFile_v2_block_v1
                 end
-            else readDataBlock (skip file (-24) c4) true
+            else readDataBlock (skip file readTimeZoneFile_rewind c4) readTimeZoneFile_v1_block_v1
           | _ => TzFail
           end
         end
